@@ -1,5 +1,7 @@
 package main
 
+import "golang.org/x/tools/go/ssa"
+
 func init() {
 	register("C12", checkC12, "what the helper does with its arguments; helpers whose parameter types are generic or otherwise outside reflect's assignability rules")
 }
@@ -21,4 +23,9 @@ func checkC12(r *Run) {
 	checkC12SSA(r)
 	r.Rule("R7", "a non-nil trailing error result fails the render: the call site inspects the last result for an error and returns before the first result is used (also in the chained-call branch)", 1)
 	reflectResultRuleAs(r, "R7")
+	r.Rule("R8", "the argument vector is owned by the activation: what is handed to reflect's Call, and every slice the evaluator stores elements into, is built in the activation and not kept in a field or package variable (the evaluator is recursive)", 1)
+	uf := w.userFunctionEval()
+	activationBuffersRule(r, "R8", func(fn *ssa.Function) bool {
+		return !isUserFunctionCode(w, uf, fn)
+	}, "evaluator functions")
 }
